@@ -1163,7 +1163,7 @@ func rlySelf(c *hx.Ctx) *rlyHist {
 }
 
 func runRelay(c *hx.Ctx) {
-	cw := c.NewCaseWriter("From NV Require Import lib.Relay_lib model.Relay corr.Relay_corr.", "Relay_corr.case", "Relay_corr.check_case", 40)
+	cw := c.NewCaseWriter("From NV Require Import lib.Relay_lib model.Relay corr.Relay_corr.", "Relay_corr.case", "Relay_corr.check_case", 8)
 	var failures []map[string]any
 	// 1. every row of both tables on a fresh situation
 	var rowLits []string
